@@ -23,8 +23,6 @@ ENTRY = ["partitura.io.exportmidi:save_performance_midi", "partitura.io.importmi
 
 
 def run(ctx):
-    from ..rules import generic as _G11
-    _G11.rule_F11(ctx, ['partitura.io.exportmidi', 'partitura.io.importmidi', 'partitura.performance'], 'C06')
     G.rule_F7a(ctx, [ctx.prog.func(q) for q in ENTRY])
     M.rule_F7h_tempo(ctx)
     X.rule_no_order_read_before_sort(ctx)
